@@ -160,6 +160,26 @@ def field_worlds():
                 w.add('cfgfields 1', ('config-fields-unchanged', same))
             w.add('end 1')
             worlds.append(w)
+    # Configs that carry JSON format options (some fields left at their zero value: no indentation, width 0)
+    for jo in ('0:-:1', '80:-:0', '0:%s:0' % hx('  '), '120:-:1+0:-:0'):
+        for fn in (None, 'custom'):
+            n += 1
+            w = World('c12f-%d' % n)
+            w.add(mode_line(False, ''))
+            w.add(cfg_line(1, 'jsonopts', fn, None, 'none', jo))
+            w.add(cfg_line(2, 'jsonopts2', fn, None, 'none', jo))       # built from the SAME option value
+            ref = {c: w.add('cfgfields %d' % c) for c in (1, 2)}
+            w.add('begin 1 %s' % hx(b'TestFields'))
+            for i, kind in enumerate(['sajson', 'json', 'sasnap', 'sajson', 'yaml', 'json']):
+                w.add(call(kind, 1, 1, i))
+                for c in (1, 2):
+                    def same(line, raw, ww, r_=ref[c], c=c):
+                        if raw != ww.impl[r_]:
+                            return 'Config %d changed: %s, it was built as %s' % (c, raw, ww.impl[r_])
+                        return None
+                    w.add('cfgfields %d' % c, ('config-fields-unchanged', same))
+            w.add('end 1')
+            worlds.append(w)
     return worlds
 
 
